@@ -241,6 +241,39 @@ def c02():
     }
 
 
+def _c03_search(seed, tier, failures):
+    import suite_hist
+    import suite_mr
+    import tempfile
+    from pathlib import Path
+    for kind, d in failures:
+        if isinstance(d, dict) and d.get("suite") == "multiround-bound" and "case" in d:
+            if _c03_replay({"failing_input": {"mr_bound_case": d["case"]}}) is False:
+                return {"mr_bound_case": d["case"], "violation": d["what"],
+                        "how": "harness/suite_mr.py: run_impl(case) then c03_mr_violation(case, read_dir(out))"}
+    return suite_hist.search_hist("C03")(seed, tier, failures)
+
+
+def _c03_replay(payload):
+    import suite_hist
+    import suite_mr
+    import tempfile
+    from pathlib import Path
+    fi = payload.get("failing_input") or {}
+    if "mr_bound_case" not in fi:
+        return suite_hist.replay_hist("C03")(payload)
+    case = fi["mr_bound_case"]
+    with tempfile.TemporaryDirectory(prefix="verif_mrb_") as tmp:
+        tmp = Path(tmp)
+        (tmp / "in").mkdir()
+        (tmp / "out").mkdir()
+        try:
+            suite_mr.run_impl(case, tmp / "out", tmp / "in")
+        except Exception:
+            return False
+        return suite_mr.c03_mr_violation(case, suite_mr.read_dir(tmp / "out", case["nf"])) is None
+
+
 def c03():
     import suite_hist
     import suite_merges
@@ -248,12 +281,14 @@ def c03():
         "props_file": "Props/C03.v",
         "theorems": ["C03_bound", "C03_never_merge", "C03_merge_meets", "C03_not_below_is_ge",
                      "C03_step_grown", "C03_last_grown", "C03_last_grown_labels", "C03_step_grown_labels"],
-        "suites": [suite_hist.suite_hist_api, suite_merges.suite_merges, suite_hist.suite_seq_refine("C03")],
-        "search": suite_hist.search_hist("C03"),
-        "replay": suite_hist.replay_hist("C03"),
+        "suites": [suite_hist.suite_hist_api, suite_merges.suite_merges, suite_hist.suite_seq_refine("C03"),
+                   __import__('suite_mr').suite_mr_bound],
+        "search": _c03_search,
+        "replay": _c03_replay,
         "model_files": ["Model/Obs.v", "Model/ObsBits.v"],
         "level": "proof",
-        "rule": HIST_RULE + "; plus the merges stream of C10",
+        "rule": HIST_RULE + "; plus the merges stream of C10; multiround-bound: serial multi-round workflows with a "
+                "(possibly negative) threshold shift, the bound checked exactly on the final clusters",
         "trusted": HIST_TRUST,
         "assumptions": ["custom MergeAcceptFunction objects promise nothing (built-in criteria only)",
                         "bound stated as 'statistic not below threshold'; equals '>=' for non-NaN "
